@@ -12,6 +12,7 @@ import NumqiProofs.CatalogueKets
 import NumqiProofs.CataloguePovm
 import NumqiProofs.CatalogueUpb
 import NumqiProofs.CatalogueCheb
+import NumqiProofs.CatalogueGenShifts
 import Mathlib.Analysis.SpecialFunctions.Trigonometric.Basic
 
 set_option linter.unusedSectionVars false
@@ -420,6 +421,114 @@ theorem upb_feng2x2x2x2_orthonormal : upbTableOrthonormal upbFeng2x2x2x2 = true 
 example : upbTableOrthonormal
     [ upbTiles.headD [], [ [sa 1 1 2, sa (-1) 1 2, s0], [s0, s0, s1], [s0, sa 1 1 2, sa 1 1 2], [s1, s0, s0], [sa 1 1 3, sa 1 1 3, sa 1 1 3] ] ] = false := by
   decide +kernel
+
+/-! ## UPB families with structured / algebraic entries -/
+
+/-- **GenShifts(k), every `k ≥ 1`** (`2k` product vectors of `2k-1` qubits): all local vectors are unit vectors and for every
+pair of product vectors some qubit carries orthogonal local vectors — hence the product of the local overlaps, which is the
+overlap of the product vectors, vanishes.  `c a`, `s a` stand for `cos(aπ/2k)`, `sin(aπ/2k)`; only `c²+s²=1` and the
+quarter-turn relation `c_a c_{a+k} + s_a s_{a+k} = 0` are used. -/
+theorem genshifts_orthonormal {R : Type} [CommRing R] (c s : ℕ → R) (k : ℕ)
+    (hn : ∀ a, c a * c a + s a * s a = 1) (hq : ∀ a, c a * c (a + k) + s a * s (a + k) = 0) :
+    (∀ x i, (gsVec c s k x i).1 * (gsVec c s k x i).1 + (gsVec c s k x i).2 * (gsVec c s k x i).2 = 1) ∧
+    ∀ i < 2 * k, ∀ j < 2 * k, i ≠ j →
+      (∃ x < 2 * k - 1, (gsVec c s k x i).1 * (gsVec c s k x j).1 + (gsVec c s k x i).2 * (gsVec c s k x j).2 = 0) ∧
+      ∏ x ∈ Finset.range (2 * k - 1), ((gsVec c s k x i).1 * (gsVec c s k x j).1 + (gsVec c s k x i).2 * (gsVec c s k x j).2) = 0 := by
+  refine ⟨fun x i => hn _, ?_⟩
+  intro i hi j hj hij
+  have key : ∃ x < 2 * k - 1, (gsVec c s k x i).1 * (gsVec c s k x j).1 + (gsVec c s k x i).2 * (gsVec c s k x j).2 = 0 := by
+    rcases Nat.lt_or_gt_of_ne hij with h | h
+    · obtain ⟨x, hx, hor⟩ := gs_pair_lt k i j h hj
+      refine ⟨x, hx, ?_⟩
+      simp only [gsVec]
+      rcases hor with e | e
+      · rw [← e]; exact hq _
+      · rw [← e]; have := hq (gsAngle k x j); linear_combination this
+    · obtain ⟨x, hx, hor⟩ := gs_pair_lt k j i h hi
+      refine ⟨x, hx, ?_⟩
+      simp only [gsVec]
+      rcases hor with e | e
+      · rw [← e]; have := hq (gsAngle k x j); linear_combination this
+      · rw [← e]; exact hq _
+  refine ⟨key, ?_⟩
+  obtain ⟨x, hx, h0⟩ := key
+  exact Finset.prod_eq_zero (Finset.mem_range.mpr hx) h0
+
+/-- the hypotheses of `genshifts_orthonormal` hold for the real cosines / sines of `aπ/2k` -/
+theorem genshifts_real (k : ℕ) (hk : 0 < k) :
+    (∀ a : ℕ, Real.cos (a * (Real.pi / (2 * k))) * Real.cos (a * (Real.pi / (2 * k))) + Real.sin (a * (Real.pi / (2 * k))) * Real.sin (a * (Real.pi / (2 * k))) = 1) ∧
+    ∀ a : ℕ, Real.cos (a * (Real.pi / (2 * k))) * Real.cos ((a + k : ℕ) * (Real.pi / (2 * k)))
+      + Real.sin (a * (Real.pi / (2 * k))) * Real.sin ((a + k : ℕ) * (Real.pi / (2 * k))) = 0 := by
+  have hkR : (k : ℝ) ≠ 0 := by exact_mod_cast hk.ne'
+  refine ⟨fun a => by have := Real.cos_sq_add_sin_sq (a * (Real.pi / (2 * k))); nlinarith [this], fun a => ?_⟩
+  have e : ((a + k : ℕ) : ℝ) * (Real.pi / (2 * k)) = (a : ℝ) * (Real.pi / (2 * k)) + Real.pi / 2 := by
+    push_cast; field_simp
+  rw [e, Real.cos_add, Real.sin_add, Real.cos_pi_div_two, Real.sin_pi_div_two]; ring
+
+/-- **Pyramid**: the five product vectors `v_a ⊗ v_{2a mod 5}` are orthonormal. Algebraic form: `c_x c_y + s_x s_y = C((x-y) mod 5)`
+(cosine of the angle difference), `C 0 = 1`, `C 2 = C 3 = -h²` (`cos 144° = -(1+√5)/4 = -h²`), `scale²(1+h²) = 1`. -/
+theorem pyramid_orthonormal {R : Type} [CommRing R] (c s C : ℕ → R) (h scale : R)
+    (hC : ∀ x < 5, ∀ y < 5, c x * c y + s x * s y = C ((x + 5 - y) % 5))
+    (h0 : C 0 = 1) (h2 : C 2 = -(h * h)) (h3 : C 3 = -(h * h)) (hs : scale * scale * (1 + h * h) = 1) :
+    (∀ p < 2, ∀ a < 5, dotList (pyramidVec c s h scale (pyramidIdx p a)) (pyramidVec c s h scale (pyramidIdx p a)) = 1) ∧
+    ∀ a < 5, ∀ b < 5, a ≠ b →
+      dotList (pyramidVec c s h scale (pyramidIdx 0 a)) (pyramidVec c s h scale (pyramidIdx 0 b))
+        * dotList (pyramidVec c s h scale (pyramidIdx 1 a)) (pyramidVec c s h scale (pyramidIdx 1 b)) = 0 := by
+  have dot : ∀ x < 5, ∀ y < 5, dotList (pyramidVec c s h scale x) (pyramidVec c s h scale y)
+      = scale * scale * (C ((x + 5 - y) % 5) + h * h) := by
+    intro x hx y hy
+    simp only [dotList, pyramidVec, List.zip_cons_cons, List.zip_nil_right, List.foldl_cons, List.foldl_nil]
+    rw [← hC x hx y hy]; ring
+  constructor
+  · intro p hp a ha
+    have hidx : pyramidIdx p a < 5 := by unfold pyramidIdx; split <;> omega
+    rw [dot _ hidx _ hidx]
+    have : (pyramidIdx p a + 5 - pyramidIdx p a) % 5 = 0 := by omega
+    rw [this, h0]; exact hs
+  · intro a ha b hb hab
+    have ia : pyramidIdx 0 a = a := rfl
+    have ib : pyramidIdx 0 b = b := rfl
+    have ja : pyramidIdx 1 a = (2 * a) % 5 := rfl
+    have jb : pyramidIdx 1 b = (2 * b) % 5 := rfl
+    rw [ia, ib, ja, jb, dot a ha b hb, dot _ (Nat.mod_lt _ (by norm_num)) _ (Nat.mod_lt _ (by norm_num))]
+    interval_cases a <;> interval_cases b <;> simp at hab <;> norm_num [h2, h3]
+
+/-- the hypotheses of `pyramid_orthonormal` hold for `c x = cos(2πx/5)`, `s x = sin(2πx/5)`, `h = √(1+√5)/2`,
+`scale = 2/√(5+√5)` -/
+theorem pyramid_real :
+    (∀ x : ℕ, x < 5 → ∀ y : ℕ, y < 5 → Real.cos (2 * Real.pi * (x : ℝ) / 5) * Real.cos (2 * Real.pi * (y : ℝ) / 5)
+      + Real.sin (2 * Real.pi * (x : ℝ) / 5) * Real.sin (2 * Real.pi * (y : ℝ) / 5)
+      = (fun d : ℕ => Real.cos (2 * Real.pi * (d : ℝ) / 5)) ((x + 5 - y) % 5)) ∧
+    Real.cos (2 * Real.pi * (2 : ℕ) / 5) = -((Real.sqrt (1 + Real.sqrt 5) / 2) * (Real.sqrt (1 + Real.sqrt 5) / 2)) ∧
+    Real.cos (2 * Real.pi * (3 : ℕ) / 5) = -((Real.sqrt (1 + Real.sqrt 5) / 2) * (Real.sqrt (1 + Real.sqrt 5) / 2)) ∧
+    (2 / Real.sqrt (5 + Real.sqrt 5)) * (2 / Real.sqrt (5 + Real.sqrt 5))
+      * (1 + (Real.sqrt (1 + Real.sqrt 5) / 2) * (Real.sqrt (1 + Real.sqrt 5) / 2)) = 1 := by
+  have h5 : (0 : ℝ) ≤ Real.sqrt 5 := Real.sqrt_nonneg 5
+  have hh : (Real.sqrt (1 + Real.sqrt 5) / 2) * (Real.sqrt (1 + Real.sqrt 5) / 2) = (1 + Real.sqrt 5) / 4 := by
+    rw [div_mul_div_comm, Real.mul_self_sqrt (by linarith)]; norm_num
+  have hcos : Real.cos (Real.pi / 5) = (1 + Real.sqrt 5) / 4 := Real.cos_pi_div_five
+  refine ⟨?_, ?_, ?_, ?_⟩
+  · intro x hx y hy
+    rw [← Real.cos_sub]
+    show _ = Real.cos (2 * Real.pi * (((x + 5 - y) % 5 : ℕ) : ℝ) / 5)
+    -- the two angles differ by a multiple of 2π
+    obtain ⟨q, hq⟩ : ∃ q : ℕ, x + 5 - y = (x + 5 - y) % 5 + 5 * q := ⟨(x + 5 - y) / 5, (Nat.mod_add_div _ _).symm⟩
+    have hcast : (x : ℝ) + 5 - y = (((x + 5 - y) % 5 : ℕ) : ℝ) + 5 * q := by
+      have : ((x + 5 - y : ℕ) : ℝ) = (x : ℝ) + 5 - y := by
+        rw [Nat.cast_sub (by omega)]; push_cast; ring
+      rw [← this]; exact_mod_cast hq
+    have : 2 * Real.pi * x / 5 - 2 * Real.pi * y / 5
+        = 2 * Real.pi * (((x + 5 - y) % 5 : ℕ) : ℝ) / 5 + ((q : ℤ) - 1 : ℤ) * (2 * Real.pi) := by
+      push_cast; linear_combination (2 * Real.pi / 5) * hcast
+    rw [this, Real.cos_add_int_mul_two_pi]
+  · rw [hh, show 2 * Real.pi * ((2 : ℕ) : ℝ) / 5 = Real.pi - Real.pi / 5 by push_cast; ring, Real.cos_pi_sub, hcos]
+  · rw [hh, show 2 * Real.pi * ((3 : ℕ) : ℝ) / 5 = Real.pi / 5 + Real.pi by push_cast; ring, Real.cos_add_pi, hcos]
+  · rw [hh, div_mul_div_comm, Real.mul_self_sqrt (by linarith)]
+    have : (5 + Real.sqrt 5) ≠ 0 := by linarith
+    field_simp; ring
+
+/-- **Min4x4**: exact check in `ℤ[√2]` (row norms as stated in the source; every pair orthogonal on party A or party B) -/
+theorem min4x4_orthonormal : min4x4Orthonormal = true := by decide +kernel
 
 /-! ## UPB → bound entangled state: the complement projector (`upb_to_bes`), for every orthonormal set of product vectors
 
